@@ -1066,22 +1066,29 @@ def gen_sched() -> str:
     if [src(b.test) for b in br] != [f"{d} in io_tasks", f"{d} in consuming_tasks"] or len(br) != len(fl[0].body):
         raise TranslateError(where, "completion branches changed")
 
-    def retrieved(branch) -> str | None:
+    def retrieved(branch, allowed) -> str | None:
+        """the name bound to `d.result()` at the top level of a completion branch ('' if the value is dropped, None if the
+        result is never retrieved); every other statement of the branch must be one of the known bookkeeping statements"""
+        got = None
         for s in branch.body:
             if isinstance(s, (ast.Assign, ast.AnnAssign)) and s.value is not None and src(s.value) == f"{d}.result()":
                 t = s.targets[0] if isinstance(s, ast.Assign) else s.target
-                return src(t)
-            if isinstance(s, ast.Expr) and src(s.value) == f"{d}.result()":
-                return ""
-        return None
-    io_var = retrieved(br[0])
+                got = src(t)
+            elif isinstance(s, ast.Expr) and src(s.value) == f"{d}.result()":
+                got = ""
+            elif not allowed(s):
+                raise TranslateError(where, f"unexpected statement in the `{src(branch.test)}` branch: {src(s)[:100]}")
+        return got
+    io_stmts = (f"io_tasks.remove({d})", "consuming_tasks.add(consuming_task)")
+    io_var = retrieved(br[0], lambda s: src(s) in io_stmts or src(s).startswith("consuming_task = asyncio.create_task("))
     if not io_var:
         raise TranslateError(where, "the result of a completed read task is not retrieved (nothing to consume)")
     chain = [src(s) for s in br[0].body]
     if f"io_tasks.remove({d})" not in chain or f"consuming_task = asyncio.create_task({io_var}.consume_buffer(executor))" not in chain \
             or "consuming_tasks.add(consuming_task)" not in chain:
         raise TranslateError(where, f"a completed read is no longer handed to its consumer: {chain}")
-    cons = retrieved(br[1])
+    cons = retrieved(br[1], lambda s: src(s) == f"consuming_tasks.remove({d})"
+                     or (isinstance(s, ast.AugAssign) and src(s.target) in ("memory_budget_bytes", "bytes_read")))
     if f"consuming_tasks.remove({d})" not in [src(s) for s in br[1].body]:
         raise TranslateError(where, "a completed consuming task is not removed")
     out += ("\n(* scheduler.py execute_read_reqs: `d.result()` in the two completion branches re-raises a task's exception *)\n"
